@@ -39,7 +39,8 @@ theorem incarnation_never_decreases_step (E : Env) (s : State) (op : Op) (orc : 
     (fun i p h => by subst h; simp [Op.restartsIncarnation] at hop)
     (fun h => by subst h; simp [Op.restartsIncarnation] at hop)
     (fun _ _ _ _ => trivial) (fun _ _ _ _ _ => trivial)
-    (fun _ _ _ _ _ => ⟨trivial, fun _ _ _ _ _ => trivial⟩)).run ⟨s, [], orc⟩
+    (fun _ _ _ _ _ => ⟨trivial, fun _ _ _ _ _ => trivial⟩)
+    (fun id _ => removeDown_of_frame (by intro s s' h hs; exact IncInv.of_same (by rw [h]) (by rw [h]) hs) id)).run ⟨s, [], orc⟩
     ⟨rfl, hinc, Or.inr ⟨rfl, Nat.le_refl _⟩⟩
   unfold step
   cases hr : runOp E op ⟨s, [], orc⟩ with
@@ -57,12 +58,6 @@ theorem same_identity_incarnation_monotone (E : Env) (s : State) (op : Op) (orc 
   obtain ⟨⟨_, h2⟩, _⟩ := this
   rw [hid] at h2
   rcases h2 with h2 | h2 <;> omega
-
-/-- histories of public calls -/
-inductive RunsTo (E : Env) (allowed : Op → Prop) : State → State → Prop
-  | refl (s : State) : RunsTo E allowed s s
-  | step {s s1 s2 : State} (op : Op) (orc : Oracle) (eff : List Effect) (r : Res) (left : Oracle) :
-      RunsTo E allowed s s1 → allowed op → Foca.step E s1 op orc = .done s2 eff r left → RunsTo E allowed s s2
 
 /-- Over any history of calls that contains no `change_identity` / `reuse_down_identity`, of any length, the
     instance only moves forward; whenever it is seen again under the same identity its incarnation is at
